@@ -166,6 +166,21 @@ def run(prog, rep, tier):
     if not keep:
         rep.violation(R104, ER + "|keeps-ntf", "EvtxReader does not own the NamedTempFile (it would be deleted before parsing, or leak)")
 
+    # ------------------------------------------------------------ R10.7 parser options that discard parsable records stay off
+    # `ParserSettings::validate_checksums(true)` makes the evtx crate reject every 64 KiB chunk whose
+    # stored CRC is stale - which is the normal state of a log copied while the event-log service had
+    # it open; all records of such a chunk then vanish from the output without a word (analyze() keeps
+    # only the error text).  "Each record is printed exactly once" needs the lenient default.
+    R107 = rep.rule("R10.7", "the evtx parser is not configured to reject chunks (checksum validation off)")
+    nb7 = prog.body(ER + "::new")
+    cfg = [c for c in nb7.live_calls() if c.d.startswith("evtx::ParserSettings::")]
+    strict = [c for c in cfg if c.d.split("::")[-1] == "validate_checksums" and len(c.args) > 1 and (c.args[1][0] != "k" or c.args[1][2] is not False)]
+    rep.examined(R107, nb7.path + "|parser-settings", sample={"settings_calls": [c.d.split("::")[-1] for c in cfg], "checksum_validation_enabled": bool(strict)})
+    if not any(c.d.endswith("::with_configuration") for c in nb7.live_calls()) and not cfg:
+        raise CheckerError("EvtxReader::new: parser configuration not found")
+    if strict:
+        rep.violation(R107, nb7.path + "|parser-settings", "EvtxReader::new enables ParserSettings::validate_checksums (line %d); chunks of a log copied while in use have stale checksums, and every record in them is silently dropped" % strict[0].line)
+
     # ------------------------------------------------------------ R10.6 (lift: C05 rules at the extraction sites)
     # "A compressed or archived .evtx file prints the same as the plain file": the file is unpacked by
     # filedecompressor::decompress_to_ntf; the decoder-loop rules of C05 decide that the unpacked bytes
